@@ -11,6 +11,14 @@
 //!  * tamper stream: one hex digit of one recorded digest changed in a copy of a fragment — the
 //!    real verifier and the model must both reject.
 use crate::common::*;
+
+fn tainted(v: Verdict, taint: &Option<String>) -> Verdict {
+    match (v, taint) {
+        (Verdict::Ok, Some(c)) => Verdict::Taint { class: c.clone() },
+        (v, _) => v,
+    }
+}
+
 use crate::store::*;
 use std::path::{Path, PathBuf};
 
@@ -277,7 +285,7 @@ pub fn run_history(rec: &mut Recorder, seed: u64, hidx: u64, len: usize, nkeys: 
         let req = format!("ledger total {}", file_digests.join(" "));
         let v = if bad.is_empty() { Verdict::Ok } else { Verdict::Fail { class: taint.clone().unwrap_or_else(|| "books-do-not-balance".to_string()), detail: format!("{} {}", tag, bad.join("; ")) } };
         rec.count("state_checks");
-        rec.case(&req, &recorded_o, v, if file_digests.len() >= 2 { Some(fnv(req.as_bytes())) } else { None });
+        rec.case(&req, &recorded_o, tainted(v, &taint), if file_digests.len() >= 2 { Some(fnv(req.as_bytes())) } else { None });
         // --- every fragment: chain, balance, verifier verdict; model verdict
         let mut prev_last_o: Option<String> = None;
         for (fi, f) in frags.iter().enumerate() {
@@ -316,7 +324,7 @@ pub fn run_history(rec: &mut Recorder, seed: u64, hidx: u64, len: usize, nkeys: 
                 rec.add("edits_verified", edits.len() as u64 - 1);
                 let kinds = edits[1..].iter().filter(|e| !e.rmed.is_empty() && e.d.as_deref() != Some(&setsum::Setsum::default().hexdigest())).count();
                 rec.add("gc_edits", kinds as u64);
-                rec.case(&req, &cls, v, if edits.len() >= 3 { Some(fnv(req.as_bytes())) } else { None });
+                rec.case(&req, &cls, tainted(v, &taint), if edits.len() >= 3 { Some(fnv(req.as_bytes())) } else { None });
                 // --- tamper stream on this fragment
                 if edits.len() >= 2 {
                     for _ in 0..tampers {
